@@ -214,9 +214,10 @@ FULL = [
     ["transform.rotate", [-45.0, "y"]], ["transform.scale", [2.0]], ["transform.scale", [2.0, 0.5]],
     ["transform.scale", [1.0, 2.0, 3.0]], ["transform.reflect", [[1.0, 1.0, 0.0]]], ["transform.mirror", ["xy"]],
     ["transform.mirror", []], ["transform.set_pivot", [[1.0, 1.0, 0.0]]], ["transform.set_pivot", [[0.0, 0.0, 0.0]]],
+    ["transform.set_pivot", [[0.5, -1.0, 2.0]]], ["transform.translate", [2.0, 3.0]], ["transform.rotate", [45.0]],
 ]
-SMALL = [["transform.translate", [1.0, -2.0, 0.5]], ["transform.rotate", [90.0, "z"]], ["transform.scale", [2.0, 0.5]],
-         ["transform.set_pivot", [[1.0, 1.0, 0.0]]]]
+SMALL = [["transform.translate", [1.0, -2.0, 0.5]], ["transform.rotate", [30.0, "x"]], ["transform.scale", [2.0, 0.5]],
+         ["transform.set_pivot", [[1.0, 1.0, 0.5]]]]
 
 RULE = ("BFS over histories of translate/rotate/scale/reflect/mirror/set_pivot/save_state/restore_state/delete_state (stack and "
         "names a,b), current_transform/named_transform contexts (enter/exit/exit-with-exception, nesting<=2) and the error ops on the "
